@@ -1,6 +1,35 @@
 """Property -> rules map.  `quick` rules run in both tiers; `thorough` adds the rest."""
 
 PROPS = {
+    "C10": {
+        "quick": ["R-PROTOCOL", "R-BOUNDS", "R-ARGNAMES", "R-CUMSLICE", "R-WRITEBACK"],
+        "thorough": ["R-MMA-MEM", "R-STEP-DEP"],
+        "technique": "static typestate analysis of the MMA driver, bound-set (LB/UB) reasoning, argument-binding and slice lints",
+        "claim": "Decides the structural clauses of C10: the sensitivity protocol inside MMA.response (reset / seed / "
+                 "sensitivity / read / reset per response, no stale adjoints, no adjoint of a stale response); the "
+                 "variable bounds handed to the subproblem solver are the element-wise max/min over {user bound, move "
+                 "limit, asymptote offset} and are bound to the solver's bound parameters; the returned design is the "
+                 "solver's result unmodified; long positional calls bind no name to a different parameter; every "
+                 "variable slice is the extent c[i]:c[i+1] of its own signal; the variables are written before each "
+                 "response; (thorough) the iteration memory shifts correctly and the line-search step length depends on "
+                 "every step ratio of a quantity that must stay positive. P/Q coefficients, KKT accuracy and convergence "
+                 "(numeric) are not decided.",
+        "explanation": "Rules over MMA.response, the design-update method (located by role: its result is written back "
+                       "to the design vector) and the subproblem solver (located by role: its first result is returned).",
+    },
+    "C17": {
+        "quick": ["R-PROTOCOL", "R-BOUNDS", "R-CUMSLICE", "R-WRITEBACK"],
+        "thorough": ["R-BISECT"],
+        "technique": "static typestate analysis of minimize_oc, bound-set reasoning, must-pass-through, monotonicity lattice",
+        "claim": "Decides the structural clauses of C17: reset -> seed objective -> sensitivity -> read in minimize_oc; the "
+                 "new design is np.clip(., lo, hi) with lo the element-wise maximum over {xmin, x - move} and hi the "
+                 "minimum over {xmax, x + move}, and the current design is updated to it; every non-converged path "
+                 "writes the extent c[i]:c[i+1] of the new vector back to variable i; (thorough) the bisection moves the "
+                 "end of the bracket that the monotonicity of the candidate in the multiplier requires. The volume "
+                 "tolerance and convergence to the analytic optimum (numeric) are not decided.",
+        "explanation": "Typestate automaton over the CFG of minimize_oc, LB/UB term sets with single-definition name "
+                       "expansion, and a sign/monotonicity lattice through /, sqrt, *, clip, sum for the bisection.",
+    },
     "C12": {
         "quick": ["R-TRANSPOSE-PAIR", "R-EINSUM-VJP", "R-SCATTER"],
         "thorough": [],
